@@ -127,10 +127,52 @@ fn check_bilinear(d: u8, center_only: bool) {
     assert!(wsum_on_h == 1.0, "C19 at the cell centre the weight of the cell is 1");
   }
 }
+
+/// Partition of unity and weight formulas on the dyadic grid of offsets dx, dy in {0, 1/8, ..., 1}
+/// (all products are exact there, so the sum must be EXACTLY 1), for ALL cells of the depth.
+fn check_bilinear_grid(d: u8) {
+  let l = Layer::new(d);
+  let h: u64 = kani::any(); let a: u8 = kani::any(); let b: u8 = kani::any();
+  kani::assume(h < sp::n_hash(d) && a <= 8 && b <= 8);
+  let dx = (a as f64) * 0.125; let dy = (b as f64) * 0.125;
+  unsafe { B_H = h; B_DX = dx; B_DY = dy; }
+  let r = l.bilinear_interpolation(kani::any(), kani::any());
+  let nb = l.neighbours(h, true);
+  assert!(r[0].1 + r[1].1 + r[2].1 + r[3].1 == 1.0, "C19 weights sum to 1 (exactly, on the dyadic grid of offsets)");
+  let east = dx > 0.5; let north_w = dy > 0.5;
+  let corner = match (north_w, east) { (false, false) => 0u8, (false, true) => 2, (true, false) => 6, (true, true) => 8 };
+  // weights: standard bilinear weights of the 2x2 block of cells around the position, written in
+  // factored form; when the block's far corner does not exist (three-cell point) its weight is
+  // shared equally between the two side cells (statement + doc comment of the function)
+  let (sx, sy) = (if east { dx - 0.5 } else { 0.5 - dx }, if north_w { dy - 0.5 } else { 0.5 - dy }); // distance to the near cell borders, in [0, 0.5]
+  let (fx, fy) = (if east { 1.5 - dx } else { 0.5 + dx }, if north_w { 1.5 - dy } else { 0.5 + dy }); // 1 - sx, 1 - sy
+  // side cells: the one across the x-border (E or W side) and the one across the y-border
+  let (side_x, side_y) = match (north_w, east) { (false, false) => (3u8, 1u8), (false, true) => (5, 1), (true, false) => (3, 7), (true, true) => (5, 7) };
+  // dx runs along the south-to-east axis, dy along the south-to-west axis. S quadrant: across dx=0 is SW (3), across dy=0 is SE (1); E quadrant: across dx=1 NE (5), across dy=0 SE (1); W quadrant: across dx=0 SW (3), across dy=1 NW (7); N quadrant: NE (5), NW (7)
+  let cx = *nb.get(MainWind::from_index(side_x)).unwrap();
+  let cy = *nb.get(MainWind::from_index(side_y)).unwrap();
+  let has = |cell: u64, w: f64| -> bool { (r[0].0 == cell && r[0].1 == w) || (r[1].0 == cell && r[1].1 == w) || (r[2].0 == cell && r[2].1 == w) || (r[3].0 == cell && r[3].1 == w) };
+  assert!(has(h, fx * fy), "C19 weight of the cell itself == (1 - sx)(1 - sy)");
+  match nb.get(MainWind::from_index(corner)) {
+    Some(&cc) => {
+      assert!(has(cc, sx * sy), "C19 weight of the corner cell == sx * sy");
+      assert!(has(cx, sx * fy) && has(cy, fx * sy), "C19 weights of the side cells == sx (1 - sy), (1 - sx) sy");
+    }
+    None => {
+      // each side cell receives half of the missing corner's weight: sx(1-sy) + sx sy/2 = sx (1 - sy/2), written as the code's factored constants
+      let hx = if north_w { 1.25 - 0.5 * dy } else { 0.75 + 0.5 * dy };   // 1 - sy/2
+      let hy = if east { 1.25 - 0.5 * dx } else { 0.75 + 0.5 * dx };      // 1 - sx/2
+      assert!(has(cx, sx * hx) || has(cx, hx * sx), "C19 side cell across the x-border gets its weight plus half of the missing corner's");
+      assert!(has(cy, sy * hy) || has(cy, hy * sy), "C19 side cell across the y-border gets its weight plus half of the missing corner's");
+    }
+  }
+  kani::cover!(nb.get(MainWind::from_index(corner)).is_none() && a != b, "quadrant facing a three-cell point, off the diagonal");
+}
 macro_rules! bil {
-  ($($d:literal => $a:ident, $c:ident);* $(;)?) => { $(
+  ($($d:literal => $a:ident, $c:ident, $g:ident);* $(;)?) => { $(
     #[kani::proof] #[kani::stub(Layer::hash_with_dxdy, ghost_hash_with_dxdy)] #[kani::unwind(33)] fn $a() { check_bilinear($d, false) }
     #[kani::proof] #[kani::stub(Layer::hash_with_dxdy, ghost_hash_with_dxdy)] #[kani::unwind(33)] fn $c() { check_bilinear($d, true) }
+    #[kani::proof] #[kani::stub(Layer::hash_with_dxdy, ghost_hash_with_dxdy)] #[kani::unwind(33)] fn $g() { check_bilinear_grid($d) }
   )* }
 }
-bil! { 0 => bilinear_d00, bilinear_center_d00; 1 => bilinear_d01, bilinear_center_d01; 2 => bilinear_d02, bilinear_center_d02; 3 => bilinear_d03, bilinear_center_d03; 9 => bilinear_d09, bilinear_center_d09; 29 => bilinear_d29, bilinear_center_d29; }
+bil! { 0 => bilinear_d00, bilinear_center_d00, bilinear_grid_d00; 1 => bilinear_d01, bilinear_center_d01, bilinear_grid_d01; 2 => bilinear_d02, bilinear_center_d02, bilinear_grid_d02; 3 => bilinear_d03, bilinear_center_d03, bilinear_grid_d03; 9 => bilinear_d09, bilinear_center_d09, bilinear_grid_d09; 29 => bilinear_d29, bilinear_center_d29, bilinear_grid_d29; }
